@@ -172,7 +172,7 @@ def preprocess(src, predefined=()):
 # ----------------------------------------------------------------------------- tokenizer
 
 TOK = re.compile(r"""
-    (?P<ws>\s+)
+    (?P<ws>\s+|\\\n)
   | (?P<str>"(?:\\.|[^"\\])*")
   | (?P<chr>'(?:\\.|[^'\\])*')
   | (?P<num>(?:\d+\.?\d*|\.\d+)(?:[eE][+-]?\d+)?[fFlLuU]*)
@@ -365,6 +365,9 @@ class Parser:
         if v == "(":
             self.eat("(")
             e = self.e_add()
+            if self.at("="):          # (r = f())  : value of the assignment expression
+                self.eat()
+                e = self.e_add()
             self.eat(")")
             return e
         if k != "id":
@@ -386,7 +389,8 @@ class Parser:
                 return ("fun2", "pow", args[0], args[1])
             if name == "equal" and len(args) == 3:
                 return ("condexpr", ("equal", args[0], args[1], args[2]))
-            return self.postfix(("var", name + "()"))
+            self.last_call = (name, args)
+            return self.postfix(("var", name + "(" + argnames(args) + ")"))
         base = self.aliases.get(name, name)
         return self.postfix(("var", base))
 
@@ -396,7 +400,8 @@ class Parser:
         if not self.at(")"):
             while True:
                 if self.peek()[0] in ("str", "chr"):
-                    self.eat()
+                    while self.peek()[0] in ("str", "chr"):
+                        self.eat()
                     args.append(("var", "<string>"))
                 else:
                     args.append(self.e_add_or_cond())
@@ -411,7 +416,7 @@ class Parser:
         save = self.p
         try:
             e = self.e_add()
-            if self.at(",") or self.at(")"):
+            if self.at(",") or self.at(")") or self.at(";"):
                 return e
         except Refuse:
             pass
@@ -434,12 +439,14 @@ class Parser:
                     elif f.startswith("Set_") and len(args) == 1:
                         return ("setter", name + "." + f[4:], args[0])
                     else:
-                        name = name + "." + f + "()"
+                        name = name + "." + f + "(" + argnames(args) + ")"
                 else:
                     name = name + "." + f
             elif self.at("["):
                 j = match(self.t, self.p)
-                self.p = j + 1      # index dropped: chains are relative to the current row / component
+                if j == self.p + 2 and self.t[self.p + 1][0] == "num":
+                    name = name + "[" + self.t[self.p + 1][1] + "]"   # literal index kept
+                self.p = j + 1      # variable index dropped: chains are relative to the current row / component
             else:
                 break
         if name in self.consts:
@@ -536,7 +543,8 @@ class Parser:
         if self.peek()[1] in ("=", "+=", "-=", "*=", "/=") and lhs[0] == "var":
             op = self.eat()[1]
             if self.peek()[0] == "str":
-                self.eat()
+                while self.peek()[0] == "str":
+                    self.eat()
                 rhs = ("var", "<string>")
             else:
                 rhs = self.e_add_or_cond()
@@ -552,13 +560,26 @@ class Parser:
             op = self.eat()[1]
             self.eat(";")
             return ("assign", lhs[1], ("add" if op == "++" else "sub", lhs, ("num", Fraction(1))))
-        if lhs[0] == "var" and lhs[1].endswith("()"):
+        if lhs[0] == "var" and lhs[1].endswith(")"):
             self.eat(";")
-            nm = lhs[1][:-2]
+            nm = lhs[1][:lhs[1].index("(")]
             if nm in PRINT_CALLS:
                 return None
-            return ("call", nm)
+            args = self.last_call[1] if getattr(self, "last_call", None) and self.last_call[0] == nm else []
+            return ("call", nm, args)
         raise Refuse("unsupported statement near " + " ".join(x[1] for x in self.t[max(0, self.p - 6):self.p + 6]))
+
+
+def argnames(args):
+    out = []
+    for a in args:
+        if a[0] == "var":
+            out.append(a[1])
+        elif a[0] == "num":
+            out.append(str(a[1]))
+        else:
+            return ""
+    return ",".join(out)
 
 
 def seq(ss):
